@@ -20,7 +20,7 @@ BOXES = ("mixed", "mixed", "boxed", "narrow", "narrow", "lower", "upper", "boxed
 
 def floors(tier):
     return {"runs": 500, "points_checked": 5000, "evaluations_with_component_on_bound": 1500, "fd_runs": 150, "runs_with_bounds_object_edited_in_place": 60, "runs_with_nested_run": 60, "nested_runs": 100,
-            "runs_with_low_precision_start": 80, "__nontrivial__": 200}
+            "runs_with_low_precision_start": 80, "restart_legs": 150, "runs_with_user_functions_working_in_place_on_their_argument": 80, "__nontrivial__": 200}
 
 
 def cases(tier, seed):
@@ -35,7 +35,13 @@ def cases(tier, seed):
         cfg["cb"] = "never"
         if i % 8 == 3:
             cfg["x0_dtype"] = str(gen.pick(rng, ["float32", "float32", "float16"]))  # a start vector of lower precision
+        if i % 7 == 5 and cfg["jac"] != "cs":
+            cfg["hostile_user"] = True  # the user's functions work in place on the array they are handed (and leave garbage in it)
         spec = {"problem": ps, "cfg": cfg, "edit_bounds": bool(i % 6 == 0)}
+        if i % 4 == 2:
+            # the run is continued from its result, with a gradient scaler and a demanding curvature test on the restart leg
+            spec["restart"] = {"scaler": float(np.exp(rng.uniform(np.log(1e-3), np.log(1e3)))), "extra": int(rng.integers(1, 6)),
+                               "eps_SY": float(gen.pick(rng, [2.2e-16, 1e-2, 0.3]))}
         if i % 10 == 7:
             # another optimisation (same n, another box, finite differences) runs nested inside the objective
             spec["nested"] = {"problem": gen.rand_spec(rng, ("qp", "sphere", "quartic"), nmax=8, boxes=("none", "mixed", "lower", "upper", "boxed"),
@@ -79,6 +85,15 @@ def run(spec):
     if tr.exc is not None:
         out.count("runs_raised")
         out.count("raised:" + type(tr.exc).__name__)
+    if cfg.get("hostile_user"):
+        out.count("runs_with_user_functions_working_in_place_on_their_argument")
+    if spec.get("restart") and tr.result is not None and not out.violations:
+        rs = spec["restart"]
+        c2 = dict(cfg, maxiter=int(tr.result.nit) + rs["extra"], scaler=rs["scaler"], eps_SY=rs["eps_SY"], cb="never")
+        c2.pop("x0_dtype", None)
+        leg = probes.run_min(P, c2, checkpoint=tr.result, x0=np.array(tr.result.x, dtype=float, copy=True))
+        out.count("restart_legs")
+        e2e.mon_box(out, P, leg, cfg["jac"], dict(tags, phase="restart_leg_with_gradient_scaler"))
     # second call with the SAME bounds array, tightened in place by the user (freeze a variable at its current value,
     # shrink the others around the solution): every point of the second run must respect the box as it is now
     if spec.get("edit_bounds") and tr.result is not None and not out.violations:
